@@ -39,7 +39,7 @@ ASSUMPTIONS = [
 ]
 MUST_REACH = {"valid_out_delivered": 300, "valid_in_delivered": 300, "garbage_datagrams": 300, "templates_covered": 300,
               "discard_random": 20, "discard_truncated": 20, "discard_unknown_host": 10, "discard_unregistered_circuit": 10,
-              "discard_banned": 5, "discard_bad_socks": 20, "discard_presession": 5, "reopened_circuits": 3, "closing_messages_checked": 3,
+              "discard_banned": 5, "discard_bad_socks": 20, "discard_presession": 5, "reopened_circuits": 3, "closing_messages_checked": 3, "sessions_claimed_out_of_login_order": 2,
               "same_ip_sequences": 2, "multi_region_deliveries": 50}
 
 _es = Settings()
@@ -64,8 +64,11 @@ class Circ:
         self.in_id = 1
 
 
+DISPATCHED = []
+
+
 def snapshot(rig, assocs):
-    snap = []
+    snap = [("dispatched-to-handlers", len(DISPATCHED))]
     for s in rig.session_manager.sessions:
         regs = []
         for r in s.regions:
@@ -172,6 +175,12 @@ def _run_sequence(ctx, rng, rig, seq_seed, same_ip):
             c.in_id = rng.choice([1, 1, 200, 250, 700, 760, 65000, 2 ** 24 - 5])
             circuits.append(c)
     assocs = [rig.add_association(clients[0]), rig.add_association(clients[1])]
+    # witnesses: state-keeping code hangs off these handlers, a discarded datagram must never get that far
+    del DISPATCHED[:]
+    for sess in sessions:
+        sess.message_handler.subscribe("*", lambda m: DISPATCHED.append(m.name) and None)
+        for r in sess.regions:
+            r.message_handler.subscribe("*", lambda m: DISPATCHED.append(m.name) and None)
     wit_base = {"sequence_seed": seq_seed, "same_ip": same_ip}
     history = []
     last_was_garbage = False
@@ -366,9 +375,13 @@ def _run_sequence(ctx, rng, rig, seq_seed, same_ip):
         circ.open = True
         circ.ever_opened = True
 
-    # open the first circuits
-    open_circuit(circuits[0])
-    open_circuit(circuits[3])
+    # open the first circuits - in either order: the second login's viewer may well connect first
+    first_two = [circuits[0], circuits[3]]
+    if rng.random() < 0.5:
+        first_two.reverse()
+        ctx.count("sessions_claimed_out_of_login_order")
+    for c0 in first_two:
+        open_circuit(c0)
     kinds = ["random", "truncated", "bad_socks", "unknown_host", "unregistered_circuit", "banned", "unknown_msgnum"]
     for ev in range(n_events):
         r = rng.random()
